@@ -236,6 +236,7 @@ def run(chk, facts):
     rule_r25(chk, facts)
     rule_r26(chk, facts)
     rule_r27(chk, facts)
+    rule_r28(chk, facts)
 
 
 def rule_r26(chk, facts, rule='C03-R26'):
@@ -323,4 +324,52 @@ def rule_r27(chk, facts, rule='C03-R27'):
                    'after the structure copy the duplicate shares the string buffer of the original and no fresh buffer is '
                    'allocated for it (path %s): both entries free the same block when the symbol table is cleared '
                    '(GLOBAL name / name EQU "text" inside a SECTION)' % ' '.join(w[-4:]))
+    return n
+
+
+def rule_r28(chk, facts, rule='C03-R28'):
+    chk.rule(rule, 'tools: the amount of a relative seek (fseek(.., SEEK_CUR)) that is computed from 32-bit values read from '
+             'the file is not held in a signed 32-bit variable: a sum that wraps to a negative number seeks backwards and '
+             'the same record is read again for ever', min_instances=5)
+    FILLS = {'fread': (0,), 'Read2': (1,), 'Read4': (1,), 'Read8': (1,), 'ReadRecordHeader': (0, 1, 2, 3)}
+    seen = set()
+    n = 0
+    for exe in ('plist', 'alink', 'p2bin', 'p2hex', 'pbind'):
+        P = facts.program(exe)
+        for f in P.all_funcs():
+            if f.entry is None or f.qname in seen:
+                continue
+            seen.add(f.qname)
+            ext = set()
+            for b, i, ln, c in f.calls(tuple(FILLS)):
+                for ai in FILLS[callee_name(c)]:
+                    if ai < len(c[2]):
+                        a = nocast(c[2][ai])
+                        if a[0] == 'u' and a[1] == '&' and nocast(a[2])[0] == 'l':
+                            ext.add(nocast(a[2]))
+            for b, i, ln, c in f.calls('fseek'):
+                if len(c[2]) < 3 or const_val(nocast(c[2][2])) != 1:
+                    continue
+                off = nocast(c[2][1])
+                if const_val(off) is not None:
+                    continue
+                n += 1
+                bad = None
+                for x in walk(off):
+                    if not (isinstance(x, (list, tuple)) and len(x) == 2 and x[0] == 'l'):
+                        continue
+                    L = tuple(x)
+                    t = f.locals.get(L[1]) or {}
+                    bits = t.get('bits')
+                    if not (isinstance(bits, int) and bits < 0 and abs(bits) <= 32):
+                        continue
+                    for bb, ii, l2, m in f.nodes():
+                        if is_assign(m) and nocast(m[2]) == L and any(
+                                isinstance(y, (list, tuple)) and len(y) == 2 and tuple(y) in ext and
+                                abs((f.locals.get(y[1]) or {}).get('bits') or 0) >= 32 for y in walk(m[3])):
+                            bad = (L[1], l2)
+                chk.ob(rule, '%s:%s:fseek(%s)' % (f.unit.name, f.name, show(off)[:30]), bad is None, f.loc(ln),
+                       'forward only' if bad is None else
+                       '%s is a signed %d-bit variable that receives a sum of 32-bit values from the file (line %d): counts '
+                       'like FFFFFFF3h make it negative and the seek goes backwards' % (bad[0], 32, bad[1]))
     return n
